@@ -219,6 +219,40 @@ def check_ruby_invariant(ctx):
   return ok1 and ok2
 
 
+def check_percentages(ctx):
+  """FIN-pct: every WebVTT percentage from 0% to 100% inclusive is read as that number (the writer
+  itself prints `line:100%,end`); evaluated on the statements of parse_vtt_pct with the matched
+  digits as the variable."""
+  from ..consteval import FuncEval, NotConst, Raised, _CallingConstEval
+  from ..rules import match
+  ix = ctx.ix
+  f = ix.func("ttconv.vtt.reader:parse_vtt_pct")
+  ctx.unit(f.module)
+  mvars = [st.targets[0].id for st in own_nodes(f.node) if isinstance(st, ast.Assign) and isinstance(st.targets[0], ast.Name) and isinstance(st.value, ast.Call)
+           and isinstance(st.value.func, ast.Attribute) and st.value.func.attr in ("fullmatch", "match")]
+  if len(mvars) != 1:
+    raise AnalysisError(f"{f.qualname}: the regular-expression match was not found")
+  mv = mvars[0]
+  body = [st for st in f.node.body if not (isinstance(st, ast.Assign) and isinstance(st.targets[0], ast.Name) and st.targets[0].id == mv)]
+  body = match.replace_exprs(body, {f"{mv}.group(1)": "__digits", f"{mv} is not None": "__matched", f"{mv} is None": "__unmatched", mv: "__matched"})
+  fe = FuncEval(ix)
+  wrong = []
+  for digits, want in (("0", 0), ("7", 7), ("50", 50), ("99.4", 99), ("100", 100), ("100.0", 100)):
+    env = {"__digits": digits, "__matched": True, "__unmatched": False}
+    try:
+      got = fe._block(_CallingConstEval(ix, fe, f, 0, None), f, body, env)
+    except Exception as e:
+      if type(e).__name__ == "_Return":
+        got = e.value
+      elif isinstance(e, (NotConst, Raised)):
+        raise AnalysisError(f"{f.qualname}: leaves the evaluable subset on {digits!r} ({e})")
+      else:
+        raise
+    if got != want:
+      wrong.append(f"{digits}% is read as {got!r}, expected {want}")
+  ctx.check(not wrong, "FIN-pct", f"{f.qualname}|0% .. 100% inclusive", ctx.where(f.module, f.node), "6 values", "; ".join(wrong) + " - cue settings such as line:100%,end (which the writer prints) are ignored")
+
+
 def run(ctx):
   ix = ctx.ix
   nul.IMPLICATIONS.clear()
@@ -258,4 +292,7 @@ def run(ctx):
     return any(_m.is_none_test(p_, lambda e: unparse(e) in ("self.ruby_rbc", "self.ruby_rtc")) is False for p_ in parts)
   nfr = forbid.check_forbidden_receivers(ctx, ctx.ix.cls("ttconv.vtt.reader:_TextCueParser"), implications={"Ruby": _no_ruby_open} if RUBY_INV_OK[0] else None) + forbid.check_forbidden_receivers(ctx, ctx.ix.cls("ttconv.srt.reader:_TextParser"))
   ctx.floor("RAISE-guard", "calls on the parsers' cursor of methods that always raise for a class the cursor can hold", nfr, 1)
+  check_percentages(ctx)
+  nfl = shape.check_state_flush(ctx, ix.func("ttconv.vtt.tokenizer:CueTextTokenizer"), continuation={("start_tag_annot", "annot_cref"), ("annot_cref", "start_tag_annot")})
+  ctx.note(f"TYPESTATE-flush: {nfl} leaving branches of buffer-filling states")
   common.check_history_independence(ctx, ["ttconv.vtt.reader", "ttconv.vtt.tokenizer", "ttconv.utils"])
